@@ -102,7 +102,28 @@ def build(engine, pkg=".", race=False, shim=False, porcupine=False, tags="verif"
     return out, time.time() - t0
 
 
-def run_child(binary, test, env, timeout_s, tag, extra_args=None, cwd=None, wrap=None):
+_NETNS = None
+
+
+def netns_wrap():
+    """Every child that opens sockets runs in a private network namespace (own loopback, own
+    port space): trials of concurrently running checks, the repository's suite or anything else
+    on the machine cannot connect to a trial's listeners, and a trial's dial storms cannot reach
+    theirs. Falls back to the shared namespace where unprivileged namespaces are unavailable."""
+    global _NETNS
+    if _NETNS is None:
+        if os.environ.get("VERIF_NO_NETNS"):
+            _NETNS = []
+        else:
+            try:
+                ok = subprocess.run(["unshare", "-rn", "sh", "-c", "ip link set lo up"], stdout=subprocess.DEVNULL, stderr=subprocess.DEVNULL, timeout=20).returncode == 0
+            except Exception:
+                ok = False
+            _NETNS = ["unshare", "-rn", "sh", "-c", 'ip link set lo up && exec "$@"', "sh"] if ok else []
+    return _NETNS
+
+
+def run_child(binary, test, env, timeout_s, tag, extra_args=None, cwd=None, wrap=None, netns=True):
     """Run one child; returns dict(rc, records, log, progress)."""
     sc = scratch()
     out = os.path.join(sc, tag + ".jsonl")
@@ -117,7 +138,7 @@ def run_child(binary, test, env, timeout_s, tag, extra_args=None, cwd=None, wrap
     os.makedirs(tmpd, exist_ok=True)
     e["TMPDIR"] = tmpd
     e["VERIF_PROGRESS"] = prog
-    cmd = ["timeout", "-s", "QUIT", "-k", "20", str(int(timeout_s))] + (wrap or []) + [binary, "-test.run", "^%s$" % test, "-test.count=1", "-test.timeout=0"]
+    cmd = ["timeout", "-s", "QUIT", "-k", "20", str(int(timeout_s))] + (netns_wrap() if netns else []) + (wrap or []) + [binary, "-test.run", "^%s$" % test, "-test.count=1", "-test.timeout=0"]
     if extra_args:
         cmd += extra_args
     with open(log, "w") as lf:
